@@ -2,37 +2,86 @@ package main
 
 import (
 	"bytes"
+	"encoding/base64"
+	"encoding/json"
 	"fmt"
+	"image"
 	"os"
 
 	webp "github.com/deepteams/webp"
 	"verif/lw"
 	"verif/riffwalk"
-	"verif/ximage"
 )
 
 func main() {
-	if len(os.Args) < 2 {
-		fmt.Println(lw.SelfTest())
-		return
-	}
 	b, _ := os.ReadFile(os.Args[1])
-	_, _, _, e1 := lw.DecodeRGBA(b)
-	fmt.Println("libwebp:", e1)
-	_, e2 := webp.Decode(bytes.NewReader(b))
-	fmt.Println("repo:", e2)
-	_, e3 := ximage.Decode(b)
-	fmt.Println("ximage:", e3)
+	if bytes.HasPrefix(b, []byte("{")) {
+		var rep struct {
+			Desc string
+			Data struct{ File, Sig string }
+		}
+		json.Unmarshal(b, &rep)
+		fmt.Println(rep.Desc, rep.Data.Sig)
+		b, _ = base64.StdEncoding.DecodeString(rep.Data.File)
+	}
 	info, iss := riffwalk.Walk(b)
 	fmt.Println("walk:", iss)
 	if info != nil && len(info.Frames) > 0 && info.Frames[0].BS != nil {
-		bs := info.Frames[0].BS
-		fmt.Printf("%+v\n", *bs)
-		p := bs.Data
-		tbl := 10 + bs.Part0Len
-		for i := 0; i < bs.Partitions-1; i++ {
-			fmt.Print(int(p[tbl+3*i])|int(p[tbl+3*i+1])<<8|int(p[tbl+3*i+2])<<16, " ")
+		bs := *info.Frames[0].BS
+		bs.Data = nil
+		fmt.Printf("%+v\n", bs)
+		xiParams(info.Frames[0].BS.Data)
+	}
+	ly, err := lw.DecodeYUV(b, false)
+	fmt.Println("libwebp:", err)
+	lb, _ := lw.DecodeYUV(b, true)
+	m, err := webp.Decode(bytes.NewReader(b))
+	fmt.Println("repo:", err)
+	d, ok := m.(*image.YCbCr)
+	if !ok {
+		fmt.Printf("type %T\n", m)
+		n := m.(*image.NRGBA)
+		want, w, h, _ := lw.DecodeRGBA(b)
+		cnt := 0
+		for y := 0; y < h; y++ {
+			for x := 0; x < w; x++ {
+				g := n.Pix[y*n.Stride+x*4 : y*n.Stride+x*4+4]
+				wv := want[(y*w+x)*4 : (y*w+x)*4+4]
+				if !bytes.Equal(g, wv) {
+					if cnt < 60 {
+						fmt.Printf("(%d,%d) repo=%v lw=%v\n", x, y, g, wv)
+					}
+					cnt++
+				}
+			}
 		}
-		fmt.Println("payload", len(p), "tbl", tbl)
+		fmt.Println("w,h", w, h, "diffs", cnt)
+		return
+	}
+	w, h := ly.W, ly.H
+	n := 0
+	for y := 0; y < h; y++ {
+		for x := 0; x < w; x++ {
+			g := d.Y[d.YOffset(x, y)]
+			if g != ly.Y[y*w+x] {
+				if n < 40 {
+					fmt.Printf("Y(%d,%d) repo=%d lw=%d unfiltered=%d\n", x, y, g, ly.Y[y*w+x], lb.Y[y*w+x])
+				}
+				n++
+			}
+		}
+	}
+	fmt.Println("Y diffs:", n)
+	cw := (w + 1) / 2
+	for y := 0; y < (h+1)/2; y++ {
+		for x := 0; x < cw; x++ {
+			o := d.COffset(2*x, 2*y)
+			if d.Cb[o] != ly.U[y*cw+x] {
+				fmt.Printf("U(%d,%d) repo=%d lw=%d unf=%d\n", x, y, d.Cb[o], ly.U[y*cw+x], lb.U[y*cw+x])
+			}
+			if d.Cr[o] != ly.V[y*cw+x] {
+				fmt.Printf("V(%d,%d) repo=%d lw=%d unf=%d\n", x, y, d.Cr[o], ly.V[y*cw+x], lb.V[y*cw+x])
+			}
+		}
 	}
 }
